@@ -485,6 +485,10 @@ def run(repo, rep):
     rep.clause("C19-q", "the table generators evaluate the real function at the real input: finite_lut_value passes its argument unchanged and replaces only an OverflowError")
     rep.clause("C19-r", "the softmax exp table's input scaling is saturated at 2^31 - 1 before it is quantised (reference clamp)")
     rule_round11(repo, rep)
+    rep.clause("C19-s", "a constant folded through QUANTIZE is round(value / scale) like the reference kernel [rule shared with C09-z]")
+    from . import c09 as _c09s
+
+    rep.run_borrowed(_c09s, {"C09-z": "C19-s"}, repo)
     rep.clause("C19-o", "a table is a function of the operator it is built for: the table modules keep no process-wide memo of generated tables [rule shared with C14-a]")
     from . import c14 as _c14
 
